@@ -4,6 +4,9 @@
 (* position (deepest first) and class:                                       *)
 (*   "computes"  the word computes a fresh result (which must carry no tags) *)
 (*   "moves"     the word moves / selects existing cells (tags travel along) *)
+(*               (a word that builds a NEW collection - reverse, sort, push,  *)
+(*               slice, insert, remove - computes: the collection it returns  *)
+(*               carries no tags, the elements inside keep theirs)            *)
 (*   "fmt"       the word consults the formatting tag (#fmt)                 *)
 (*   "effect"    only a side effect (stack change, output, variable)         *)
 (* Numbers read from binary input carry len/big tags by design, so the read  *)
@@ -37,11 +40,12 @@ Table == <<
   Wd("int?", <<"int">>, "computes"), Wd("real?", <<"real">>, "computes"), Wd("str?", <<"str">>, "computes"),
   Wd("vec?", <<"vec">>, "computes"), Wd("bitstr?", <<"bits">>, "computes"), Wd("bool?", <<"flag">>, "computes"),
   Wd("length", <<"vec">>, "computes"), Wd("length", <<"str">>, "computes"), Wd("length", <<"bits">>, "computes"),
-  Wd("reverse", <<"vec">>, "moves"), Wd("sort", <<"vec">>, "moves"), Wd("push", <<"any", "vec">>, "moves"),
+  Wd("reverse", <<"vec">>, "computes"), Wd("sort", <<"vec">>, "computes"), Wd("push", <<"any", "vec">>, "computes"),
   Wd("unbox", <<"vec">>, "moves"), Wd("collect", <<"any", "any", "int2">>, "moves"),
   Wd("nth", <<"vec", "idx">>, "moves"), Wd("get", <<"vec", "idx">>, "moves"), Wd("get", <<"map", "key">>, "moves"),
-  Wd("insert", <<"map", "any", "key">>, "moves"), Wd("remove", <<"map", "key">>, "moves"),
-  Wd("slice", <<"vec", "idx", "int2">>, "moves"), Wd("slice", <<"str", "idx", "int2">>, "computes"),
+  Wd("insert", <<"map", "any", "key">>, "computes"), Wd("remove", <<"map", "key">>, "computes"),
+  Wd("slice", <<"vec", "idx", "int2">>, "computes"), Wd("slice", <<"vec", "zero", "three">>, "computes"), Wd("slice", <<"str", "idx", "int2">>, "computes"),
+  Wd("slice", <<"str", "zero", "three">>, "computes"), Wd("collect", <<"any", "zero">>, "computes"),
   Wd("concat", <<"svec">>, "fmt"), Wd("join", <<"svec", "str">>, "fmt"), Wd("str>number", <<"numstr">>, "fmt"),
   Wd("print", <<"any">>, "fmt"), Wd("println", <<"int">>, "fmt"),
   Wd("assert", <<"flag">>, "effect"), Wd("assert-eq", <<"int", "int">>, "effect"), Wd("error", <<"str">>, "effect"),
@@ -64,7 +68,7 @@ Table == <<
 
 \* source text of one sample value per argument type
 Sample(t) ==
-  CASE t = "any" -> "7" [] t = "int" -> "5" [] t = "int2" -> "2" [] t = "idx" -> "1" [] t = "real" -> "2.5" [] t = "flag" -> "true"
+  CASE t = "any" -> "7" [] t = "int" -> "5" [] t = "int2" -> "2" [] t = "zero" -> "0" [] t = "three" -> "3" [] t = "idx" -> "1" [] t = "real" -> "2.5" [] t = "flag" -> "true"
     [] t = "nil" -> "nil" [] t = "str" -> "\"ab\"" [] t = "numstr" -> "\"12\"" [] t = "hexstr" -> "\"ff01\"" [] t = "b64str" -> "\"QUI=\""
     [] t = "vec" -> "[ 3 1 2 ]" [] t = "svec" -> "[ \"a\" 5 \"b\" ]" [] t = "map" -> "{ 1 \"k\" 2 \"j\" }" [] t = "key" -> "\"k\""
     [] t = "bits" -> "|ff 01|" [] t = "bits4" -> "|01 02 03 04|" [] t = "magicpat" -> "|41|" [] t = "utf8bits" -> "|41 42|"
